@@ -226,6 +226,28 @@ def run(ctx):
                        outs == ('AUTH',) and post != CLOSE,
                        '%s before OK must move on to the next mechanism'
                        % cmd, det(t))
+    # a challenge is answered (response or ERROR), never by hanging up: the
+    # server that sent it may accept this mechanism, or the next one after
+    # its REJECTED - whatever was exchanged for the mechanisms tried before
+    # (decided for the FIRST challenge after a mechanism was offered; what a
+    # client does with a second one in the same mechanism is its own choice)
+    n_chal = 0
+    offered = set(inits) | {t.post for t in m.transitions
+                            if 'AUTH' in t.outputs and not t.closed}
+    for (pre, cmd, outs, post), t in rows.items():
+        if cmd == 'DATA' and not guid_set(pre) and pre in offered:
+            n_chal += 1
+            ctx.ob('C07.D4', where(t), 'challenge-is-answered',
+                   post not in (CLOSE, 'EXC') and bool(outs),
+                   'the first DATA challenge after mechanism %r was offered '
+                   'ends the connection (%s) instead of being answered: a server '
+                   'that challenges and would then accept this mechanism '
+                   'never gets to' % (f(m, pre, 'authMech'),
+                                      'raises' if post == 'EXC' else
+                                      'closes' if post == CLOSE else
+                                      'silent'), det(t))
+    if not n_chal:
+        raise AnalysisError('C07: no DATA transition before OK was explored')
     # D4 / D5 ------------------------------------------------------------------
     for (pre, cmd, outs, post), t in rows.items():
         if post == 'EXC':
